@@ -54,11 +54,16 @@ def m_mul(m1, m2):
     return tuple(sorted(d.items()))
 
 
+DEADLINE = [None]
+
+
 def p_mul(a, b):
     if not a or not b:
         return {}
-    if len(a) * len(b) > 4_000_000:
+    if len(a) * len(b) > 400_000:
         raise Fail('product too large')
+    if DEADLINE[0] is not None and len(a) * len(b) > 64 and time.time() > DEADLINE[0]:
+        raise Fail('time budget')
     r = {}
     for m1, c1 in a.items():
         for m2, c2 in b.items():
@@ -288,9 +293,26 @@ def reduce(p, rules, n_eqs, budget_s=5.0):
     return out, mult
 
 
+_EQ_CACHE = {}
+
+
 def equations_of(constraints, conv):
     eqs = []
     for c in constraints:
+        key = (id(conv), c.get_id())
+        hit = _EQ_CACHE.get(key)
+        if hit is None:
+            hit = (_equations_of_one(c, conv), c)
+            if len(_EQ_CACHE) > 50000:
+                _EQ_CACHE.clear()
+            _EQ_CACHE[key] = hit
+        eqs += hit[0]
+    return eqs
+
+
+def _equations_of_one(c, conv):
+    eqs = []
+    if True:
         for e in _flatten_and(c):
             if z3.is_eq(e) and e.children()[0].sort() == z3.RealSort():
                 a, b = e.children()
@@ -331,15 +353,29 @@ def split_equality(bad):
 STATS = dict(tried=0, certified=0, time=0.0, z3_time=0.0, failed_reduce=0, nonzero_nf=0)
 
 
-def try_certify(constraints, bad, timeout_ms=4000, budget_s=6.0):
+SHARED = {}
+
+
+def shared_conv(tag):
+    """one converter (with its term cache) per path: obligations of a path share most sub-terms"""
+    c = SHARED.get('conv')
+    if c is None or SHARED.get('tag') != tag:
+        c = Conv()
+        SHARED['conv'] = c
+        SHARED['tag'] = tag
+    return c
+
+
+def try_certify(constraints, bad, timeout_ms=4000, budget_s=6.0, tag=None):
     """-> (True, info) if `constraints |= not bad` was certified; (False, reason) otherwise"""
     ab = split_equality(bad)
     if ab is None:
         return False, 'not an equality'
     t0 = time.time()
     STATS['tried'] += 1
+    DEADLINE[0] = t0 + budget_s
     try:
-        conv = Conv()
+        conv = Conv() if tag is None else shared_conv(tag)
         a, b = ab
         na, da = conv.rf(a)
         nb, db = conv.rf(b)
@@ -380,9 +416,10 @@ def try_certify(constraints, bad, timeout_ms=4000, budget_s=6.0):
         return False, 'term too deep'
 
 
-def canon_key(t, max_nodes=4000):
+def canon_key(t, max_nodes=4000, budget_s=0.2):
     """hashable canonical form of a real term as a rational function (expanded numerator / denominator, denominator
     monic in its leading monomial), or None. Terms that are equal as rational functions get the same key."""
+    DEADLINE[0] = time.time() + budget_s
     try:
         conv = Conv()
         n, d = conv.rf(t)
